@@ -117,6 +117,58 @@ def check_no_pixel_dropped(R, F, ex, res, tag, nn):
     R.floor(tag + " loop-exit segments", nseg, 1)
 
 
+def carried_iterator(est, ev):
+    """is the iterator this `next` pulls from one that lives across iterations of the loop (it existed, initialised,
+    when the loop was entered)? An iterator created afresh inside the body can be pulled from for ever."""
+    if not ev.args or not isinstance(ev.args[0], Ptr):
+        return False
+    ex, l = est
+    root = ev.args[0].root
+    if root[0] == "O":
+        return True                       # an object behind a reference that came from outside
+    nm = ex.describe_loc(root, ())
+    vals = [v for k, v in l["entry_values"].items() if k.split("~")[0] == nm or k.split("~")[0].startswith(nm + ".")]
+    return bool(vals) and all(repr(v) != "undef" for v in vals)
+
+
+def can_reenter(ex, est, cst, f):
+    """the first branch decision of the iteration that only looks at loop-head values (for a `while` loop: its test),
+    with the head values replaced by the values at the back edge: False if the facts refute it"""
+    head = {}
+    for r, v in est.mem.items():
+        for leaf_h, leaf_e in zip_leaves(v, cst.mem.get(r)):
+            head[leaf_h] = leaf_e
+    for pdec, val in cst.facts.decisions():
+        ats = pdec.atoms()
+        hs = [a for a in ats if "loop:" in repr(a)]
+        if not hs:
+            continue
+        if not all(a in head for a in hs) or len(hs) != len(ats):
+            return True           # the first test on loop state involves more than head values: no conclusion
+        sub = {a: head[a] for a in hs}
+        q = f.simplify(pdec.subst(sub))
+        cv = q.const_value()
+        return not (cv is not None and cv != val)
+    return True
+
+
+def zip_leaves(vh, ve, depth=0):
+    """pairs (atom of a havoced scalar at the loop head, polynomial of the same location at the back edge)"""
+    if depth > 4 or ve is None:
+        return
+    if isinstance(vh, IntV) and isinstance(ve, IntV):
+        a = vh.poly().is_atom()
+        if a is not None:
+            yield a, ve.poly()
+    elif isinstance(vh, BoolV) and isinstance(ve, BoolV):
+        a = vh.p.is_atom()
+        if a is not None:
+            yield a, ve.p
+    elif isinstance(vh, Agg) and isinstance(ve, Agg) and len(vh.fields) == len(ve.fields):
+        for x, y in zip(vh.fields, ve.fields):
+            yield from zip_leaves(x, y, depth + 1)
+
+
 def write_len(ev):
     a1 = ev.args[1]
     return a1.meta.poly() if isinstance(a1, Ptr) and a1.meta is not None else None
@@ -245,6 +297,7 @@ def run(R):
             rec = C.one(F.trait_impl_method(C.IFACE, mname, self_adt=SPIIF), "SpiInterface::" + mname)
             ex = R.executor(F)
             ex.keep_dead_entry_locals = True        # the repeat counter is read at the return
+            ex.conserved_coeffs = [sym_int("const N", F.pointer_bits, False), -sym_int("const N", F.pointer_bits, False)]
             ln = sym_int("len(*self.buffer)", F.pointer_bits, False)
             nn = sym_int("const N", F.pointer_bits, False)
             res = R.run_entry(ex, rec, assume=[ln - nn, nn - 1, Poly.const((1 << 32) - 1) - ln])
@@ -269,6 +322,15 @@ def run(R):
                      "the slice written at %s has length %r: it must be the part of the buffer staged in this round, not the whole "
                      "buffer (stale bytes would be sent)" % (TR.where(s.ev), meta), TR.where(s.ev),
                      sample={"fn": mname, "write": TR.where(s.ev), "length": repr(meta)})
+            # an explicit panic (assert! / panic! / unreachable!) that the stated precondition "the buffer holds at least one
+            # pixel" does not exclude: the call would abort instead of delivering the bytes
+            for o in res.panics():
+                if o.info.get("kind") == "panic_call":
+                    sp_ = o.info.get("span") or {}
+                    R.ob("C06-no-explicit-panic", "%s|panic@%s" % (tag, o.info.get("callee")), False,
+                         "%s can reach an explicit panic at %s:%s although the buffer holds at least one pixel (path: %s)"
+                         % (mname, sp_.get("file"), sp_.get("line"), [("%r" % p_)[:80] for p_, _ in o.state.facts.decisions()][-3:]),
+                         "%s:%s" % (sp_.get("file"), sp_.get("line")))
             if mname == "send_pixels":
                 check_no_pixel_dropped(R, F, ex, res, tag, nn)
             else:
@@ -282,8 +344,43 @@ def run(R):
                     any(isinstance(it, E.LoopMark) for it in c["trace"]) or
                     any(TR.classify(e).cls == "NEXT" for e in TR.flatten_events(c["trace"], res.loops) if e.kind == "call") for c in conts)
                 if iter_driven:
-                    R.ob("C06e-loop-progress", "%s|loop@%s|iterator" % (tag, where), True, "", where,
-                         sample={"loop": where, "witness": "consumes a finite iterator on every iteration"})
+                    # every path round the loop must use something up: an item of a finite iterator (a `next` that
+                    # yields Some on that path), or - for a loop that writes - at least one staged byte in the write
+                    # (a pull that yields None consumes nothing: looping on after the stream has ended would never stop)
+                    bad = []
+                    est = l.get("entry_state")
+                    for ci, c in enumerate(conts):
+                        anns = TR.annotate(c["trace"], None)
+                        # the results of the `next` calls on the path that are still open: decide them case by case
+                        pulls = [a_["ev"] for a_ in anns if TR.classify(a_["ev"]).cls == "NEXT" and isinstance(a_["ev"].ret, SymV)]
+                        open_ = [e for e in pulls if c["state"].facts.simplify(ex.variant_cond(e.ret, 1)).const_value() is None][:4]
+                        for mask in range(1 << len(open_)):
+                            f = c["state"].facts.copy()
+                            if not all(f.assume(ex.variant_cond(e.ret, 1), (mask >> k_) & 1) for k_, e in enumerate(open_)):
+                                continue
+                            # does this case go round again? the test made first in the iteration (on the loop-head values),
+                            # re-evaluated on the values at the back edge, must not be refuted
+                            if est is not None and not can_reenter(ex, est, c["state"], f):
+                                continue
+                            wit = None
+                            for a_ in anns:
+                                ev = a_["ev"]
+                                if not all(f.simplify(c_).const_value() == 1 for c_ in a_["conds"]):
+                                    continue
+                                cls = TR.classify(ev).cls
+                                if cls == "NEXT" and isinstance(ev.ret, SymV) and f.simplify(ex.variant_cond(ev.ret, 1)).const_value() == 1 \
+                                        and carried_iterator((ex, l), ev):
+                                    wit = "an item is taken on every pass"
+                                elif cls == "SPI_WRITE":
+                                    m_ = write_len(ev)
+                                    if m_ is not None and f.entails_ge0(f.simplify(m_) - 1, use_eq=True) is not None:
+                                        wit = "every pass writes at least one staged byte"
+                            if wit is None:
+                                bad.append((ci, mask))
+                    R.ob("C06e-loop-progress", "%s|loop@%s|iterator" % (tag, where), not bad,
+                         "a path round the loop at %s neither takes an item from an iterator nor writes a staged byte: it can repeat for ever "
+                         "(e.g. after the pixel stream has ended)" % where, where,
+                         sample={"loop": where, "witness": "every pass that goes round again consumes an item or writes >= 1 staged byte" if not bad else "none"})
                     continue
                 # counter loop: some unsigned loop-carried local must strictly decrease on every iteration
                 ok_all = bool(conts)
